@@ -208,6 +208,10 @@ func (cell c13cell) config(variant int) *cfg.Config {
 			cfg.Service{Name: "mmMiddle", Constructor: cfg.P(pkg + ".New"), Getter: cfg.P("GetMmMiddle"), MustGetter: cfg.P(!opposite)},
 			cfg.Service{Name: "zzLast", Constructor: cfg.P(pkg + ".New"), Getter: cfg.P("GetZzLast")})
 	}
+	if cell.getter {
+		// a value service with a declared type: at run time it may be replaced by an object of another, convertible type
+		conf.Services = append(conf.Services, cfg.Service{Name: "vsvc", Value: cfg.P(pkg + ".GlobalVal"), Type: cfg.P(pkg + ".Val"), Getter: cfg.P("GetVsvc"), MustGetter: tri(cell.must)})
+	}
 	if cell.typ == "val" && cell.getter {
 		// value-typed failing getter as well (type-only zero value with a failing field)
 		conf.Services = append(conf.Services, cfg.Service{Name: "vbad", Type: cfg.P(pkg + ".Obj"), Getter: cfg.P("GetVBad"), MustGetter: tri(cell.must),
@@ -256,7 +260,12 @@ func checkC13(c *Ctx) error {
 							{Op: "getter", Name: "GetPlain"}, {Op: "getter", Name: "Getplain"}, {Op: "get", Name: "plain"},
 							// last: a context that was never attached to the container. Whatever GetInContext does with it, the typed
 							// accessors do the same (they are GetInContext plus a conversion)
-							{Op: "getctxfree", Name: "svc"}, {Op: "getterctxfree", Name: "GetSvcInContext"}, {Op: "getterctxfree", Name: "MustGetSvcInContext"}}
+							{Op: "getctxfree", Name: "svc"}, {Op: "getterctxfree", Name: "GetSvcInContext"}, {Op: "getterctxfree", Name: "MustGetSvcInContext"},
+							// very last: the application replaces the value service by an object of another package's Val type - not assignable
+							// to the declared type but convertible into it, and "converted to T" is what the accessors promise
+							{Op: "get", Name: "vsvc", NoModel: true}, {Op: "getter", Name: "GetVsvc", NoModel: true},
+							{Op: "overridesvc", Name: "vsvc", Ctor: "fixt/pb.MkVal", NoModel: true},
+							{Op: "get", Name: "vsvc", NoModel: true}, {Op: "getter", Name: "GetVsvc", NoModel: true}, {Op: "getterctx", Name: "GetVsvcInContext", Ctx: 1, NoModel: true}, {Op: "getter", Name: "MustGetVsvc", NoModel: true}}
 						units = append(units, &probe.Unit{ID: idOf(i), Cfg: conf, Files: []probe.File{{Name: "gontainer.yaml", Content: conf.YAML()}}, Ops: ops})
 						cells = append(cells, cell)
 						i++
@@ -336,6 +345,28 @@ func checkC13(c *Ctx) error {
 					return "error"
 				}
 				return "value"
+			}
+			// the replaced value service: Get hands out the new object, so do the accessors (converted)
+			{
+				after := false
+				var got *probe.Res
+				for oi, op := range u.Ops {
+					if oi >= len(u.Results) || !op.NoModel {
+						continue
+					}
+					r := u.Results[oi]
+					switch {
+					case op.Op == "overridesvc":
+						after = r.OK
+					case op.Op == "get" && after:
+						got = &u.Results[oi]
+					case (op.Op == "getter" || op.Op == "getterctx") && after && got != nil && class(r) != "missing":
+						c.Add("accessors_compared_with_Get_after_a_replacement_of_a_convertible_type", 1)
+						if class(*got) == "value" && class(r) != "value" {
+							c.Violate("accessor-differs-from-Get:replaced-by-a-convertible-type", fmt.Sprintf("unit %s %+v: after OverrideService(\"vsvc\", <fixt/pb.Val>) Get(\"vsvc\") hands out the new object, but %s ends in %s (%s%s); fixt/pb.Val converts into the declared type", u.ID, cell, op.Name, class(r), r.Panic, r.Err), files)
+						}
+					}
+				}
 			}
 			var base *probe.Res
 			for oi, op := range u.Ops {
